@@ -22,6 +22,7 @@ PLUGINS = {
     "C06": "harness.plug_query:C06",
     "C07": "harness.plug_query:C07",
     "C08": "harness.plug_query:C08",
+    "C14": "harness.plug_writers:C14",
     "C15": "harness.plug_refs:C15",
     "C16": "harness.plug_bulk:C16",
     "C17": "harness.plug_resolver:C17",
